@@ -343,6 +343,61 @@ class Engine:
             goal = z3.BoolVal(goal)
         return list(self.facts) + list(self.pc if pc is None else pc) + [z3.Not(goal)]
 
+
+    def make_filter(self, n, keep, val=None, kind='list', esort=None):
+        """the sequence [val(j) for j in range(n) if keep(j)]  (val = identity when None).
+
+        keep(j) -> z3 Bool and val(j) -> engine value are closures over a z3 Int.  The result is described by fresh
+        functions (of the active loop indices): its length L and the strictly increasing source-index function src, with
+        the defining facts instantiated on demand:
+          0 <= L <= n;   for 0 <= t < L:  0 <= src(t) < n, keep(src(t)), t <= src(t) <= n - L + t, pos(src(t)) = t;
+          src strictly increasing (instantiated for every pair of indices read);
+          for 0 <= j < n with keep(j):  0 <= pos(j) < L and src(pos(j)) = j      (every kept index occurs)."""
+        n = n if z3.is_expr(n) else z3.IntVal(n)
+        nn = z3.If(n > 0, n, 0)
+        ln = self.fresh_fun('flen', 'int')(z3.IntVal(0))
+        src = self.fresh_fun('fsrc', 'int')
+        pos = self.fresh_fun('fpos', 'int')
+        self.fact(z3.And(ln >= 0, ln <= nn))
+        qa, qb = z3.Int(fresh_name('qa')), z3.Int(fresh_name('qb'))
+        # strictly increasing source indices (one quantified axiom; the loop indices stay free, so it is re-instantiated
+        # whenever the filter is substituted into another iteration)
+        self.fact(z3.ForAll([qa, qb], z3.Implies(z3.And(qa >= 0, qa < qb, qb < ln), src(qa) < src(qb)),
+                            patterns=[z3.MultiPattern(src(qa), src(qb))]))
+        seen = []
+
+        def src_at(t):
+            sv = src(t)
+            rng = z3.And(t >= 0, t < ln)
+            self.fact(z3.Implies(rng, z3.And(sv >= 0, sv < n, keep(sv), sv >= t, sv <= n - ln + t, pos(sv) == t)))
+            for (t2, s2) in seen[-6:]:
+                if t2 is t or z3.eq(t2, t):
+                    continue
+                self.fact(z3.Implies(z3.And(rng, t2 >= 0, t2 < ln),
+                                     z3.And(z3.Implies(t < t2, sv < s2), z3.Implies(t2 < t, s2 < sv), z3.Implies(t == t2, sv == s2))))
+            seen.append((t, sv))
+            return sv
+
+        def pos_of(j):
+            pz = pos(j)
+            self.fact(z3.Implies(z3.And(j >= 0, j < n, keep(j)), z3.And(pz >= 0, pz < ln, src(pz) == j)))
+            src_at(pz)
+            return pz
+
+        ident = val is None
+        es = esort or ('int' if ident else 'val')
+        out = SeqV(length=ln, kind=kind, esort=es, canon=ident)
+
+        def elem(t):
+            sv = src_at(t)
+            return SV(sv, 'int') if ident else val(sv)
+        out.elem = elem
+        if ident:
+            out.mem = lambda x: z3.And(x >= 0, x < n, keep(x))
+            out.inv = pos_of
+        out.filt = dict(n=n, keep=keep, src=src_at, pos=pos_of)
+        return out
+
     # ------------------------------------------------------------------ reification
     def strconst(self, s):
         return boxS(z3.StringVal(s))
@@ -620,6 +675,10 @@ class Engine:
                 s.mem = self._subst_fn_z(v.mem, pairs, v.esort)
             if v.inv is not None:
                 s.inv = self._subst_fn_z(v.inv, pairs, v.esort)
+            if getattr(v, 'filt', None) is not None:
+                f = v.filt
+                s.filt = dict(n=z3.substitute(f['n'], *pairs), keep=self._subst_fn_z(f['keep'], pairs, 'int'),
+                              src=self._subst_fn_z(f['src'], pairs, 'int'), pos=self._subst_fn_z(f['pos'], pairs, 'int'))
             return s
         if isinstance(v, CaseV):
             return CaseV([(z3.substitute(g, *pairs), self.subst(x, pairs, memo)) for g, x in v.cases])
